@@ -10,7 +10,7 @@
          | (w i K PID DID (expired p..) (awaiters p..) (completed p..))
        K   = - | k
        PID = - | p                                   ; the process that executed instructions
-       DID = (did (taken i..) SEL ACT park fin heapy)
+       DID = (did (taken i..) SEL (forget p..) ACT park fin heapy)   ; forget: process sources of the selects completed in the slice
        SEL = - | (sel (targets p..) (cursors c..) (timeouts d..) (start -|t))
        ACT = - | spawn | (deliver t) | (await t..)
        park, heapy = 0|1 ; fin = - | (ok v) | (err e)
@@ -60,8 +60,8 @@ let act_of = function
 let flag s = Sexp.atom s = "1"
 
 let did_of = function
-  | Sexp.List [Sexp.Atom "did"; Sexp.List (Sexp.Atom "taken" :: tk); sel; act; park; fin; heapy] ->
-    { d_taken = nats tk; d_sel = sel_of sel; d_act = act_of act; d_park = flag park; d_fin = res_of fin; d_heapy = flag heapy }
+  | Sexp.List [Sexp.Atom "did"; Sexp.List (Sexp.Atom "taken" :: tk); sel; Sexp.List (Sexp.Atom "forget" :: fg); act; park; fin; heapy] ->
+    { d_taken = nats tk; d_sel = sel_of sel; d_forget = nats fg; d_act = act_of act; d_park = flag park; d_fin = res_of fin; d_heapy = flag heapy }
   | x -> failwith ("bad did " ^ Sexp.to_string x)
 
 let action_of (s : Sexp.t) : sched_action =
